@@ -142,7 +142,7 @@ func (f *c13RecFS) WriteFile(name string, data []byte, perm FileMode) error {
 }
 
 var c13OpLayouts = [][]string{
-	{"/a", "/b"}, {"/", "/a"}, {"/a", "/a/b"}, {"/a", "/ab", "/"},
+	{"/a", "/b"}, {"/", "/a"}, {"/a", "/a/b"}, {"/a", "/ab", "/"}, {"/a/", "/b"}, {"/a", "/a/b", "/a/b/c"},
 }
 
 // c13Owner: the mount point that must serve path p (relative to cwd), and the
@@ -154,14 +154,22 @@ func c13Owner(layout []string, cwd, p string) (mount, rest string, found bool) {
 	}
 	full = filepath.Clean(full)
 	for _, t := range layout {
-		if t == "/" || full == t || strings.HasPrefix(full, t+"/") {
-			if !found || len(t) > len(mount) {
+		tt := t
+		if tt != "/" {
+			tt = strings.TrimSuffix(tt, "/") // a mount point written with a trailing slash
+		}
+		if tt == "/" || full == tt || strings.HasPrefix(full, tt+"/") {
+			if !found || len(tt) > len(strings.TrimSuffix(mount, "/")) || mount == "" {
 				mount, found = t, true
 			}
 		}
 	}
 	if found {
-		rest = strings.TrimPrefix(full, mount)
+		mt := mount
+		if mt != "/" {
+			mt = strings.TrimSuffix(mt, "/")
+		}
+		rest = strings.TrimPrefix(full, mt)
 	}
 	return
 }
@@ -173,7 +181,7 @@ func c13Owner(layout []string, cwd, p string) (mount, rest string, found bool) {
 // no source at all.
 func HarnessC13VirtualOSOperations() {
 	layout := c13OpLayouts[verifrt.Choose(len(c13OpLayouts))]
-	cwd := "/a"
+	cwd := []string{"/a", "/", "/zz"}[verifrt.Choose(3)]
 	var log []c13Call
 	mounts := map[string]*Mount{}
 	for _, t := range layout {
